@@ -187,5 +187,14 @@ def localSplitUncapped (verts : List (V3 K)) (tris : List Tri) (n : V3 K) (bias 
           else if il.isEmpty then some .positive
           else some (.pair (h.vl.toList, il) (h.vr.toList, ir))
 
+/-- `TriMesh::split(position, axis, bias, epsilon)` (mesh without caps): `local_split` on the transferred plane -/
+def splitUncapped (verts : List (V3 K)) (tris : List Tri) (pos : Iso3 K) (axis : V3 K) (bias eps : K) : Option (Split (MeshOut K)) :=
+  let (la, lb) := planeToLocal pos axis bias
+  localSplitUncapped verts tris la lb eps
+
+/-- `TriMesh::canonical_split(axis, bias, epsilon)` (mesh without caps): `local_split(&Vector::ith_axis(axis), ..)` -/
+def canonicalSplitUncapped (verts : List (V3 K)) (tris : List Tri) (i : Fin 3) (bias eps : K) : Option (Split (MeshOut K)) :=
+  localSplitUncapped verts tris (ithAxis i) bias eps
+
 end Cut
 end Model
